@@ -566,8 +566,8 @@ StepSubmit(t, res) ==
         cands == {t} \cup DOMAIN orph
     IN /\ added \subseteq cands
        /\ res \in {"refused", "orphaned", "notneeded"} => pool' = pool /\ spent' = spent
-       /\ res = "orphaned" => /\ t \in DOMAIN orph'
-                              /\ \E i \in 1..NIns(t) : Ins(t)[i].tx \notin P /\ ~UtxoHas(utxo, OP(Ins(t)[i]))
+       /\ res = "orphaned" => \E i \in 1..NIns(t) : Ins(t)[i].tx \notin P /\ ~UtxoHas(utxo, OP(Ins(t)[i]))
+                              \* (whether it is still in the reject cache afterwards is policy: the cache is bounded)
        /\ res = "accepted" => (t \in DOMAIN pool' \/ AllowEvict)
        /\ AllowEvict \/ Explained(IF res = "accepted" THEN cands ELSE {})
 
@@ -577,8 +577,9 @@ StepMined(txs) ==
        /\ Range(txs) \cap DOMAIN pool' = {}
        /\ (P \ DOMAIN pool') \subseteq Range(txs) \cup DescDef(pool, UNION {Conflicting(pool, c) : c \in Range(txs) \cup DOMAIN orph}, {})
 
+\* (that every transaction of the block is put back is what BlockUndone does, but not what the property asks:
+\* a child left without its parent is caught by InputsSpendable)
 StepUndone(txs) ==
-    /\ Range(txs) \subseteq DOMAIN pool'                                        \* every transaction of the block is put back
     /\ DOMAIN pool' \ P \subseteq Range(txs)
     /\ AllowEvict \/ Explained(Range(txs))
 
